@@ -177,8 +177,9 @@ func (e *Engine) opBatch(c *cursor) *Violation {
 	if len(srcTables) > 1 {
 		e.St.Probes["batch-multi-source"]++
 	}
+	var countViol *Violation
 	if !op.Q && res.Count != len(matched) {
-		return e.viol(cl, op, "%s returned %d, %d entities match %s", op.Variant, res.Count, len(matched), spec)
+		countViol = e.viol(cl, op, "%s returned %d, %d entities match %s", op.Variant, res.Count, len(matched), spec)
 	}
 	before := len(e.expEvents)
 	affected := map[ecs.Entity]bool{}
@@ -218,6 +219,16 @@ func (e *Engine) opBatch(c *cursor) *Violation {
 			affected[me.H] = true
 			e.commitExchange(op, me)
 		}
+	}
+	if countViol != nil {
+		// the batch touched another number of entities than match the filter: see what that did to the entities
+		if v2 := e.checkAll(e.S, ""); v2 != nil {
+			v2.Also = append(v2.Also, "batch-diff")
+			v2.Op = op
+			v2.Msg = countViol.Msg + "; " + v2.Msg
+			return v2
+		}
+		return countViol
 	}
 	if op.Q {
 		oq := &OpenQ{Batch: true, ExpSet: affected, Pos: -1, At: map[int]ecs.Entity{}, NewTypes: setOf(op.Add), Rel: -1, Slot: slot, Cached: cached}
